@@ -7,6 +7,7 @@ mod contain;
 mod ctx;
 mod engine;
 mod entropy;
+mod forge;
 mod gen;
 mod num;
 mod plan;
@@ -50,6 +51,9 @@ fn main() -> ExitCode {
                 hang_file: opt("--hang-file"),
                 only_stage: opt("--only-stage").and_then(|s| s.parse().ok()),
                 build_label: opt("--build-label").unwrap_or_default(),
+                skip: opt("--skip")
+                    .map(|s| s.split(',').filter_map(|x| x.split_once(':').and_then(|(a, b)| Some((a.parse().ok()?, b.parse().ok()?)))).collect())
+                    .unwrap_or_default(),
                 stop: match (opt("--stop-stage").and_then(|s| s.parse().ok()), opt("--stop-index").and_then(|s| s.parse().ok())) {
                     (Some(a), Some(i)) => Some((a, i)),
                     _ => None,
